@@ -5,4 +5,4 @@ Extraction "mp_model.ml" mp_fdiv_qr mp_fdiv_q mp_fdiv_r mp_cdiv_qr mp_cdiv_q mp_
   mp_gcdext mp_invert mp_powm mp_root mp_sqrt mp_rootrem mp_sqrtrem mp_perfect_square_p mp_scan1
   mp_fib_ui mp_fib2_ui mp_lucnum_ui mp_lucnum2_ui mp_fac_ui mp_bin_ui
   mp_probab_prime_p mp_nextprime mp_perfect_power_p mp_legendre mp_jacobi mp_kronecker mr_det
-  Z.gcd Z.lcm Z.pow Z.abs.
+  Z.gcd Z.lcm zpow Z.abs.
